@@ -45,6 +45,9 @@ def check_roundtrip(case):
         return Fail('parse/raw-rejected', f'{refaddr.raw(wc, acc)}: {q!r}')
     if not _addr_eq(q, wc, acc) or not (q == base):
         return Fail('parse/raw-not-equal', f'{refaddr.raw(wc, acc)} -> wc={q.wc} hash={q.hash_part.hex()}')
+    if bool(q.is_bounceable) != bool(base.is_bounceable) or bool(q.is_test_only) != bool(base.is_test_only):
+        return Fail('parse/raw-form-invents-flags', f'{refaddr.raw(wc, acc)}: bounceable={q.is_bounceable} test_only={q.is_test_only} '
+                    f'(the raw form carries no flags; the address it was rendered from has {base.is_bounceable}, {base.is_test_only})')
     # equal addresses hash equally and collapse in sets
     ok, hs = call(lambda: (hash(base), hash(p), hash(q), hash(Address(base))))
     if not ok:
@@ -64,6 +67,24 @@ def check_roundtrip(case):
         ok, txt = call(cp.to_str, False)
         if not ok or txt != refaddr.raw(wc, acc):
             return Fail(f'to_str/{nm}-raw-differs', f'{txt!r}')
+    # other addresses rendered in between, chosen so that anything that tells addresses apart by less than (workchain, account)
+    # mixes them up: int(account) + workchain equal (neighbouring workchain, account shifted by one), and accounts that differ
+    # by a multiple of 2^61 - 1 (the modulus python's hash() reduces integers by)
+    ai = int.from_bytes(acc, 'big')
+    M61 = (1 << 61) - 1
+    for wc2, a2 in ((wc + 1 if wc < 127 else wc - 1, (ai - 1 if wc < 127 else ai + 1) % (1 << 256)), (wc, (ai + M61) % (1 << 256)),
+                    (wc, (ai + 5 * M61) % (1 << 256)), (wc, (ai - M61) % (1 << 256))):
+        acc2 = a2.to_bytes(32, 'big')
+        other = Address((wc2, acc2))
+        for v2 in ((b, t, u), (not b, t, u)):
+            ok, txt = call(other.to_str, True, v2[2], v2[0], v2[1])
+            want2 = refaddr.friendly(wc2, acc2, v2[0], v2[1], v2[2])
+            if not ok or txt != want2:
+                return Fail('to_str/another-address-rendered-as-an-earlier-one', f'after {exp} was rendered, {wc2}:{acc2.hex()} renders as {txt!r}, '
+                            f'expected {want2}')
+        ok, txt = call(base.to_str, True, u, b, t)
+        if not ok or txt != exp:
+            return Fail('to_str/depends-on-earlier-calls', f'{txt!r} != {exp} after another address was rendered')
     # re-rendering the parsed address with its own flags gives the same text
     ok, again = call(p.to_str, True, u, p.is_bounceable, p.is_test_only)
     if not ok or again != exp:
